@@ -191,9 +191,6 @@ Qed.
 Lemma wf0_with_shape st d sh : wf0 st -> wf0 (with_shape st d sh).
 Proof. intros [H1 H2 H3 H4 H5 H6 H7 H8 H9 H10]. constructor; assumption. Qed.
 
-Lemma wf0_with_edits st ed : wf0 st -> wf0 (with_edits st ed).
-Proof. intros [H1 H2 H3 H4 H5 H6 H7 H8 H9 H10]. constructor; assumption. Qed.
-
 Lemma wf0_add st f st' : wf0 st -> add_dcm st f = Ok st' -> wf0 st'.
 Proof.
   intros Hwf. unfold add_dcm.
@@ -369,17 +366,11 @@ Proof.
   destruct (get_shape st) as [st1 [sh|e]]; exact H.
 Qed.
 
-Lemma wf_with_edits st ed : wf st -> wf (with_edits st ed).
-Proof.
-  intros [H0 Hc]. split; [apply wf0_with_edits, H0|]. exact Hc.
-Qed.
+Lemma get_affine_fst st : fst (get_affine st) = fst (get_shape st).
+Proof. unfold get_affine. destruct (get_shape st) as [s [sh|e]]; reflexivity. Qed.
 
 Lemma get_affine_wf st : wf st -> wf (fst (get_affine st)).
-Proof.
-  intros Hwf. unfold get_affine. pose proof (get_shape_wf st Hwf) as H.
-  destruct (get_shape st) as [st1 [sh|e]]; [|exact H]. simpl in H.
-  destruct (1 <? length (files_info st1) / nvols_of_shape sh); simpl; [apply wf_with_edits, H | exact H].
-Qed.
+Proof. intros Hwf. rewrite get_affine_fst. apply get_shape_wf, Hwf. Qed.
 
 Lemma rev_chunks_perm {A} (l : list A) k nv : Permutation (map_chunks (@rev A) k nv l) l.
 Proof. apply map_chunks_perm. intros c. symmetry. apply Permutation_rev. Qed.
